@@ -20,10 +20,14 @@ def main():
         seeds = a.seeds.split(",") if a.seeds else None
         ops = a.ops.split(",") if a.ops else None
         prop = a.prop.upper()
-        if prop in ("C01", "C04", "C07"):
+        if prop in ("C01", "C04", "C07", "C17"):
             from .check_sweep import run_property
 
             sys.exit(run_property(prop, a.tier, seeds, ops))
+        if prop == "C19":
+            from .check_c19 import run
+
+            sys.exit(run(a.tier))
         print(f"unknown property {prop}")
         sys.exit(3)
     if a.cmd == "replay":
